@@ -90,6 +90,83 @@ def stateful_sequence(rng, extra=()):
     return bytes(out), "n%d" % n
 
 
+def _enc(cp):
+    """UTF-8 encoding of any code point < 0x200000, surrogates and out-of-range values included"""
+    if cp < 0x80:
+        return bytes([cp])
+    if cp < 0x800:
+        return bytes([0xC0 | cp >> 6, 0x80 | cp & 0x3F])
+    if cp < 0x10000:
+        return bytes([0xE0 | cp >> 12, 0x80 | cp >> 6 & 0x3F, 0x80 | cp & 0x3F])
+    return bytes([0xF0 | cp >> 18, 0x80 | cp >> 12 & 0x3F, 0x80 | cp >> 6 & 0x3F, 0x80 | cp & 0x3F])
+
+
+def boundary_family():
+    """Deterministic boundary values of every numeric comparison in the scanners (the same on every run).
+    Returns {group: [src]}.  Groups: escape, utf8, digit, line."""
+    fam = {}
+    # -- escapes: code points around every bound of scanEscape, every escape form, both hex cases, in rune,
+    #    string, c"/py" literals, first / middle / last position
+    cps = [0x0, 0x7F, 0x80, 0xFF, 0x100, 0x7FF, 0x800, 0xD7FF, 0xD800, 0xD801, 0xDBFF, 0xDC00, 0xDFFE, 0xDFFF, 0xE000, 0xE001,
+           0xFFFD, 0xFFFE, 0xFFFF, 0x10000, 0x10FFFE, 0x10FFFF, 0x110000, 0x110001, 0x1FFFFF, 0x7FFFFFFF, 0x80000000, 0xFFFFFFFF]
+    atoms = []
+    for cp in cps:
+        for fmt in ("%x", "%X"):
+            if cp <= 0xFFFF:
+                atoms.append(("\\u%04" + fmt[1:]) % cp)
+            atoms.append(("\\U%08" + fmt[1:]) % cp)
+            if cp <= 0xFF:
+                atoms.append(("\\x%02" + fmt[1:]) % cp)
+    atoms += ["\\%03o" % v for v in (0, 7, 8 * 8 - 1, 0o177, 0o200, 0o377)] + ["\\400", "\\477", "\\777", "\\378", "\\08", "\\8", "\\9",
+              "\\37", "\\3", "\\xfg", "\\xg0", "\\x/0", "\\x:0", "\\x@0", "\\xG0", "\\x`0", "\\uDFF", "\\uDFFG", "\\udff/",
+              "\\U0000DFF", "\\U0010FFF", "\\U0010FFFG", "\\u", "\\U", "\\x", "\\a", "\\b", "\\f", "\\n", "\\r", "\\t", "\\v",
+              "\\\\", "\\'", '\\"', "\\`", "\\c", "\\e", "\\w", "\\A", "\\0", "\\?", "\\ "]
+    atoms = list(dict.fromkeys(atoms))
+    esc = []
+    for a in atoms:
+        b = a.encode()
+        esc += [b"'" + b + b"'", b'"' + b + b'"', b'"a' + b + b'b"', b'"' + b + b + b'"', b"'" + b, b'"' + b,
+                b'c"' + b + b'"', b'py"' + b + b'"', b"'" + b + b"' + x", b"`" + b + b"`"]
+    fam["escape"] = list(dict.fromkeys(esc))
+    # -- UTF-8: encoded boundary runes, overlong / surrogate / out-of-range encodings, truncations, BOM placement
+    raw = [_enc(cp) for cp in (0x7F, 0x80, 0xAA, 0xB5, 0xBA, 0xC0, 0xD7, 0xE9, 0xF7, 0x7FF, 0x800, 0x660, 0x669, 0x66A, 0x4E2D, 0xD7FF, 0xD800,
+                               0xDFFF, 0xE000, 0xFEFF, 0xFFFD, 0xFFFE, 0xFFFF, 0x10000, 0x1D7CE, 0x10FFFF, 0x110000, 0x1FFFFF)]
+    raw += [b"\xc0\x80", b"\xc1\xbf", b"\xc2\x7f", b"\xc2\x80", b"\xc2\xc0", b"\xdf\xbf", b"\xe0\x80\x80", b"\xe0\x9f\xbf", b"\xe0\xa0\x80",
+            b"\xed\x9f\xbf", b"\xed\xa0\x80", b"\xed\xbf\xbf", b"\xee\x80\x80", b"\xef\xbf\xbd", b"\xf0\x80\x80\x80", b"\xf0\x8f\xbf\xbf",
+            b"\xf0\x90\x80\x80", b"\xf4\x8f\xbf\xbf", b"\xf4\x90\x80\x80", b"\xf5\x80\x80\x80", b"\xf8\x88\x80\x80\x80", b"\xfe", b"\xff",
+            b"\x80", b"\xbf", b"\xc2", b"\xe0\xa0", b"\xf0\x90\x80", b"\xe2\x82", b"\xef\xbb", b"\xef\xbb\xbf\xef\xbb\xbf", b"\x00", b"\x7f"]
+    u8 = []
+    for r in raw:
+        u8 += [r, b"a" + r + b"b", r + b"1", b"1" + r, b'"' + r + b'"', b"'" + r + b"'", b"//" + r + b"\n", b"/*" + r + b"*/", b"`" + r + b"`",
+               b"x " + r + b" y", b"\xef\xbb\xbf" + r, b"#" + r, b"a\n" + r, r + r]
+    fam["utf8"] = list(dict.fromkeys(u8))
+    # -- digits / radix / letters: the characters next to every range bound, after each prefix
+    edge = [0x2F, 0x30, 0x31, 0x37, 0x38, 0x39, 0x3A, 0x40, 0x41, 0x46, 0x47, 0x5A, 0x5B, 0x5E, 0x5F, 0x60, 0x61, 0x66, 0x67, 0x7A, 0x7B, 0x7F]
+    dg = []
+    for pre in (b"", b"a", b"_", b"1", b"0", b"0x", b"0X", b"0b", b"0B", b"0o", b"0O", b"0x1", b"0b1", b"0o7", b"07", b"1.", b"0x1.", b"1e", b"1e+",
+                b"0x1p", b"0x1p-", b"1_", b"0x_", b"."):
+        for c in edge:
+            dg.append(pre + bytes([c]))
+            dg.append(pre + bytes([c]) + b"1")
+    dg += [b"0b2", b"0b12", b"0b102", b"0o8", b"0o78", b"0O18", b"08", b"09", b"078", b"08.", b"08e1", b"08i", b"0xg", b"0xfg", b"0XFG", b"0x1g",
+           b"0b1e1", b"0o1e1", b"0x1e1", b"0x1p1", b"0X1P1", b"1p1", b"0b1p1", b"0o1p1", b"01p1", b"0x.p1", b"0x1.p1", b"0x.1p1", b"0x1.", b"0b1.", b"0o1.",
+           b"1E1", b"1e-1", b"1e+1", b"1e1i", b"0x1p1i", b"1ei", b"1i", b"1ii", b"1ia", b"1r", b"1ri", b"1e1r", b"0_1", b"0__1", b"0x_1", b"0x1_", b"0_x1",
+           b"1_e1", b"1e_1", b"1._1", b"1_.1", b"_1", b"1_", b"0_", b"0b_1", b"0o_7", b"0_8", b"0_b1"]
+    fam["digit"] = list(dict.fromkeys(dg))
+    # -- line directives: the numeric bounds of updateLineInfo (go/scanner caps line and column at 1<<30)
+    nums = [0, 1, 2, (1 << 30) - 1, 1 << 30, (1 << 30) + 1, (1 << 31) - 1, 1 << 31, (1 << 32), (1 << 63) - 1, 1 << 63, (1 << 64) - 1, 1 << 64, 10 ** 30]
+    ln = []
+    for n in nums:
+        for t in (b"//line f:%d\nx", b"//line f:%d:1\nx", b"//line f:1:%d\nx", b"//line :%d:%d\nx", b"/*line f:%d*/x", b"/*line f:1:%d*/ x",
+                  b"//line f:%d\r\nx", b"x\n//line f:%d\ny", b" //line f:%d\nx", b"#/line f:%d\nx"):
+            ln.append(t % ((n,) * t.count(b"%d")))
+    ln += [b"//line f:\nx", b"//line f:+1\nx", b"//line f:-1\nx", b"//line f:1_0\nx", b"//line f:0x1\nx", b"//line f: 1\nx", b"//line f:1 \nx",
+           b"//line :1\nx", b"//line 1\nx", b"//line\nx", b"//line f:1:\nx", b"//line f::1\nx", b"//line f:x:1\nx", b"//line f:1:x\nx", b"//linef:0\nx",
+           b"/*line f:0*/", b"/*line :0*/", b"/*line f:1:0*/", b"/*line*/", b"/*line */", b"/*line f:1", b"// line f:0\nx", b"//line  f:0\nx"]
+    fam["line"] = list(dict.fromkeys(ln))
+    return fam
+
+
 def case(d, comments, src):
     return "%s%s %s" % (d, "c" if comments else "n", bytes(src).hex())
 
